@@ -7,6 +7,9 @@ from .pool import Pool, NCPU
 VERIF = build.VERIF
 SCRATCH = os.path.join(VERIF, "target", "scratch")
 KNOWN_PATH = os.path.join(VERIF, "known_findings.json")
+# Evidence and replay files go under GV_OUT when set (used when a check is pointed at a scratch worktree with a seeded
+# change, so that /verif's own evidence and replays always come from /repo itself).
+OUT = os.environ.get("GV_OUT", VERIF)
 
 EXIT_OK, EXIT_VIOLATION, EXIT_MACHINERY = 0, 1, 3
 
@@ -102,7 +105,7 @@ class Ctx:
             self._pool.close()
         shutil.rmtree(self.scratch, ignore_errors=True)
         rc = EXIT_OK
-        replay_dir = os.path.join(VERIF, "replays", self.pid)
+        replay_dir = os.path.join(OUT, "replays", self.pid)
         new = 0
         known_sigs = {f["signature"]: f for f in self.known}
         lines = []
@@ -121,11 +124,11 @@ class Ctx:
             if prev is None or prev.get("detail") != rec["detail"] or prev.get("signature") != sig:
                 json.dump(rec, open(path, "w"), indent=1, ensure_ascii=False, sort_keys=True)
             if sig in known_sigs:
-                lines.append(f"KNOWN-FINDING: property={self.pid} {known_sigs[sig]['what']} [{sig}] instances={v['count']} replay={os.path.relpath(path, VERIF)}")
+                lines.append(f"KNOWN-FINDING: property={self.pid} {known_sigs[sig]['what']} [{sig}] instances={v['count']} replay={os.path.relpath(path, OUT)}")
             else:
                 new += 1
                 rc = EXIT_VIOLATION
-                lines.append(f"VIOLATION property={self.pid} replay={os.path.relpath(path, VERIF)}  # {sig}")
+                lines.append(f"VIOLATION property={self.pid} replay={os.path.relpath(path, OUT)}  # {sig}")
         cov = self.cov
         cov["rule"] = rule
         if explanation:
@@ -140,8 +143,8 @@ class Ctx:
         ev = {"property_id": self.pid, "tier": self.tier, "seed": self.seed, "level": self.level, "coverage": cov,
               "assumptions": self.assumptions, "wall_s": round(time.time() - self.t0, 2), "violations": new,
               "build_s": round(self.build_s, 2)}
-        os.makedirs(os.path.join(VERIF, "evidence"), exist_ok=True)
-        json.dump(ev, open(os.path.join(VERIF, "evidence", f"{self.pid}.json"), "w"), indent=1, ensure_ascii=False)
+        os.makedirs(os.path.join(OUT, "evidence"), exist_ok=True)
+        json.dump(ev, open(os.path.join(OUT, "evidence", f"{self.pid}.json"), "w"), indent=1, ensure_ascii=False)
         for l in lines:
             print(l)
         print(f"[{self.pid} {self.tier}] states={cov['states']} transitions={cov['transitions']} nontrivial={cov['distinct_nontrivial']} "
